@@ -306,6 +306,14 @@ func render(s snippet.Snippet) (out string, panicked bool, pv any) {
 	return out, panicked, pv
 }
 
+// renderOnce: for snippets over single-use sequences (a second rendering legitimately yields nothing)
+func renderOnce(s snippet.Snippet) (out string, panicked bool, pv any) {
+	var buf bytes.Buffer
+	w, _ := newWriter(&buf)
+	panicked, pv, _ = core.Guard(func() { w.Render(s) })
+	return buf.String(), panicked, pv
+}
+
 type tInput struct {
 	Format string             `json:"format"`
 	Env    map[string]ArgSpec `json:"env"`
@@ -891,6 +899,47 @@ func (p *prop) runMisc(c core.Case, res *core.Result) {
 		res.Inc("Snippets_renders")
 		if panicked || got != want {
 			res.Fail("Snippets", strings.Join(desc, ","), fmt.Sprintf("Snippets(%v): got %q (panic=%v %v) want %q", desc, got, panicked, pv, want), desc)
+		}
+		// the same list as a single-use sequence (channel-fed, queue-draining: what a sequence yields it yields once) -
+		// directly, as a T argument, through Fragments and nested in another Snippets: whoever peeks at the sequence
+		// before rendering it loses its head (seeded change C09-m: Snippets.IsNil probing the sequence)
+		if np >= 1 {
+			oneShot := func() snippet.Snippet {
+				i := 0
+				return snippet.Snippets(func(yield func(snippet.Snippet) bool) {
+					for i < len(parts) {
+						p := parts[i]
+						i++
+						if !yield(p) {
+							return
+						}
+					}
+				})
+			}
+			for vi, variant := range []struct {
+				name string
+				sn   snippet.Snippet
+				want string
+			}{
+				{"direct", oneShot(), want},
+				{"T-argument", snippet.T("{@items'end}", snippet.Arg("items", oneShot())), "{" + want + "end}"},
+				{"nested", snippet.Snippets(slices.Values([]snippet.Snippet{snippet.Block("<"), oneShot(), snippet.Block(">")})), "<" + want + ">"},
+				{"Fragments", func() snippet.Snippet {
+					one := oneShot()
+					return snippet.Func(func(ctx context.Context) iter.Seq[string] { return snippet.Fragments(ctx, one) })
+				}(), want},
+			} {
+				_ = vi
+				g2, pk2, pv2 := renderOnce(variant.sn)
+				res.Evals++
+				res.Inc("single_use_sequence_renders")
+				if np >= 2 {
+					res.NonTrivial("SN1|" + variant.name + "|" + strings.Join(desc, ","))
+				}
+				if pk2 || g2 != variant.want {
+					res.Fail("Snippets", "single-use "+variant.name, fmt.Sprintf("Snippets over a single-use sequence (%s) of %v: got %q (panic=%v %v) want %q", variant.name, desc, g2, pk2, pv2, variant.want), desc)
+				}
+			}
 		}
 		// Fragments over each part
 		for j, part := range parts {
